@@ -56,12 +56,15 @@ POOL = [
     "#language: sk\nFunkcia: o\n  Scenár: s\n    Pokiaľ a\n    Ak b\n",
     "@f1 @f2\nFeature: p\n  @r1\n  Rule: one\n    @s1\n    Scenario: s\n      Given x\n  @r2 @r3\n  Rule: two\n    Scenario Outline: o\n      Given <a>\n      @e\n      Examples:\n        | a |\n        | 1 |\n",
     "Feature: q\n  Scenario Outline: no table\n    Given x\n    Examples:\n    @t\n    Examples: header only\n      | a |\n",
+    "Fonctionnalité: r\n  Scénario: s\n    Soit a\n    Sachant b\n",
+    "Fonctionnalité: s\n  Scénario: s\n    Sachant que c\n    Etant donné qu'd\n    Lorsqu'e\n",
 ]
 PERTURBS = ['plain English', 'switches to fr', 'switches to no + outline', 'ends inside """ doc string (indent 6)', 'ends inside ``` doc string',
             'closed doc string at indent 4', 'rejected with non-empty look-ahead queue', '11 errors (parse aborted)', 'unknown language',
             'comments everywhere', 'Rule + Backgrounds', 'tags before Examples', 'empty', 'ragged table',
             'first error identical to the first error of the 11-error document', 'comment + 11 errors (document node never built)',
-            "ht: 'Ak ' is a conjunction", "sk: 'Ak ' is a when keyword", 'tags on feature, two rules, scenario, examples', 'Examples without a table and with a header only']
+            "ht: 'Ak ' is a conjunction", "sk: 'Ak ' is a when keyword", 'tags on feature, two rules, scenario, examples', 'Examples without a table and with a header only',
+            "French without a header, last step 'Sachant '", "French without a header, first step 'Sachant que ' (a keyword another keyword is a prefix of)"]
 
 
 def norm(o):
